@@ -95,3 +95,42 @@ def run_decomposition_exists(c, t):
 
 
 run_decomposition_exists.runtime_domain = prefix_argmax_exists.runtime_domain
+
+
+# ---------------------------------------------------------------- sums (C11: depth, major_index)
+P11 = ("C11",)
+
+
+# FILTER-SUM: for arbitrary integer sequences t (values) and m (marks; index i is selected iff m[i] > 0), the sum of the
+# filtered listing F = [t[i] for i in range(n) if m[i] > 0] - prefix sums P over F, what sum() computes - equals the sum
+# over the WHOLE range of "t[i] if selected else 0":  P(cnt(i)) = WS(i) for every i <= n, by induction on i (cnt is the
+# prefix count of the listing).  The engine's rule filter-sum uses this statement at other filters.
+@lemma("filter_sum", {"t": "Seq", "m": "Seq"}, props=P11)
+def filter_sum(c, t, m):
+    n = c.len(t)
+    F = c.listing("lemma.filter_sum", 0, n, lambda i: m[i] > 0, lambda i: t[i])
+
+    def fact(i):
+        return c.implies(c.len(m) == n,
+                         lambda: c.rec_psum("lemma.filter_sum", F, c.count_upto(F, i)) == c.wsum_upto("lemma.filter_sum", 0, n, lambda k: c.ite(m[k] > 0, t[k], 0), i))
+
+    return [("filter_sum", 0, n, fact, ())]
+
+
+filter_sum.runtime_domain = lambda quick: [(t, m) for t in ((), (3,), (1, -2), (0, 5, 7), (2, 2, -1, 4)) for m in ((), (1,), (0, 1), (1, 0, 1), (0, 0, 0), (1, 1, 0, 1), (0, 1, 1, 0)) if len(t) == len(m)]
+
+
+# SUM-CONGRUENCE: two sums over index ranges of the same length with pointwise equal summands are equal (induction on
+# the number of terms).  The engine's rule sum-congruence (c.sum_eq) uses this statement at other summands.
+@lemma("sum_congruence", {"a": "Seq", "b": "Seq"}, props=P11)
+def sum_congruence(c, a, b):
+    n = c.len(a)
+
+    def fact(i):
+        return c.implies(c.and_(c.len(b) == n, c.forall(0, i, lambda k: a[k] == b[k])),
+                         lambda: c.wsum_upto("lemma.cong.a", 0, n, lambda k: a[k], i) == c.wsum_upto("lemma.cong.b", 0, n, lambda k: b[k], i))
+
+    return [("sum_congruence", 0, n, fact, ())]
+
+
+sum_congruence.runtime_domain = lambda quick: [(a, b) for a in ((), (1,), (2, -3), (0, 4, 4)) for b in ((), (1,), (2, -3), (2, 5), (0, 4, 4), (0, 4, 5)) if len(a) == len(b)]
